@@ -341,6 +341,8 @@ def run_cases(ctx, cases):
     codes, errs = coq_codes(ctx, coq) if coq else ({}, [])
     if errs:
         ctx.break_("correspondence:coqc-evaluation", "\n".join(errs))
+    for k in range(len(jobs)):
+        codes.setdefault(k, 3 * 16)      # not evaluated (coqc error): agrees with nothing
     split_of = {jobs[k]: v % 8 for k, v in codes.items()}
     cert_bad = [jobs[k] for k, v in codes.items() if (v % 16) >= 8]
     code_of = {jobs[k]: v // 16 for k, v in codes.items()}
@@ -428,9 +430,11 @@ def run_cases(ctx, cases):
                                               "/explicit" if c["anchors"] is not None else ""))
         for desc, detail, code in fails:
             sp = split_of.get((ci, detail["frame"])) if isinstance(detail, dict) and "frame" in detail else None
-            # a split bond is the known defect when the model predicts one for the bond order as found and none for the
-            # repaired order (make_whole stage not fragile), and the run as a whole follows the as-found model
-            explained = KNOWN_VARIANT if (desc == "bonded pair left split" and sp == 1 and variant == KNOWN_VARIANT) else None
+            # a split bond is the known defect when, on this very frame, the model predicts one for the bond order as
+            # found and none for the repaired order (make_whole stage not fragile) and the frame does not contradict
+            # the as-found model (attribution is per frame, so that the replay of the case alone gives the same verdict;
+            # a run whose frames do not all follow one variant is reported separately as a broken correspondence)
+            explained = KNOWN_VARIANT if (desc == "bonded pair left split" and sp == 1 and code in (0, 2, 4)) else None
             api = "make_molecules_whole" if c["api"] == "whole" else "image_molecules"
             ctx.fail("%s: %s" % (api, desc), c, observed=detail,
                      expected="lattice moves only; every bonded pair at its minimum-image separation; cells, times and (inplace=False) the original untouched",
